@@ -27,7 +27,7 @@ pub static DEF: CheckDef = CheckDef {
         ("proto-1.14", 0.25),
         ("final:drop-all", 0.30),
         ("chan:items-flowed", 0.04),
-        ("call:answered", 0.30),
+        ("call:answered", 0.20),
     ],
     extra: None,
     extra_coverage: None,
@@ -159,6 +159,15 @@ fn run_inner(p: &Program) -> Result<Outcome, Outcome> {
                     h.shutdown();
                 }
             }
+            FinalMode::BrokerKick => {
+                let mut bh = rig.net.broker.clone();
+                let ch = rig.net.clients[i].conn_handle.borrow().clone();
+                if let Some(ch) = ch {
+                    rig.net.sim.spawn(&format!("driver:kick:c{}", i), counted(async move {
+                        let _ = bh.shutdown_connection(&ch).await;
+                    }));
+                }
+            }
             FinalMode::DropAll => {
                 // F5 exclusion: let the client process the aborts before it loses its last handle
                 if !p.allow_late_abort && cc.drop_replies() > 0 {
@@ -239,6 +248,9 @@ fn run_inner(p: &Program) -> Result<Outcome, Outcome> {
     }
     if p.clients.iter().any(|c| c.final_mode == FinalMode::DropAll) {
         classes.push("final:drop-all");
+    }
+    if p.clients.iter().any(|c| c.final_mode == FinalMode::BrokerKick) {
+        classes.push("final:broker-shutdown-connection");
     }
     for (label, stat) in [
         ("drop-with-inflight", "drop-with-inflight"),
